@@ -203,7 +203,19 @@ pub fn draw_cfg(r: &mut Rng, p: &Preset) -> Cfg {
         11 | 12 => 1_000_000_000,
         13 => u64::MAX as u128,
         14 => DUR_MAX_NS,
-        _ => match r.below(4) {
+        _ => match r.below(6) {
+            4 | 5 => {
+                // numeric edges of Duration conversions: 2^31, 2^32, 2^63, 2^64 (-1, +0, +1) in ns, us, ms, s
+                let unit = *r.pick(&[1u128, 1_000, 1_000_000, 1_000_000_000]);
+                let p = *r.pick(&[31u32, 32, 63, 64, 55]);
+                let base = (1u128 << p).saturating_mul(unit);
+                let v = match r.below(3) {
+                    0 => base.saturating_sub(1),
+                    1 => base,
+                    _ => base.saturating_add(1),
+                };
+                v.min(DUR_MAX_NS)
+            }
             0 => *r.pick(&TIMEOUTS),
             1 => 1 + r.below(1u64 << 40) as u128,
             2 => 1_500_000_000,
@@ -948,6 +960,59 @@ impl<'a> Gen<'a> {
         self.note_delivered(m);
     }
 
+    /// A pair (or selection + value) whose halves are separated by a long soak of unrelated
+    /// activity: in-flight state must neither be lost nor resurrected by hundreds (thorough tier:
+    /// 65536) of rounds of something else. Emitted as one block, straight into the trace.
+    fn emit_interrupted_pair(&mut self, ch: u8) {
+        let others: Vec<u8> = (0..16u8).filter(|c| *c != ch).collect();
+        let d = *self.r.pick(&others);
+        let repr = self.repr();
+        // first half
+        let cc14 = self.r.chance(1, 2);
+        let (g, n_parts, split) = if cc14 {
+            let g = self.next_group;
+            self.next_group += 1;
+            let cn = self.r.below(32) as u8;
+            let val = self.value14(ch);
+            let fac = self.fac();
+            self.ev.push(Ev::EncCc14 { g, ch, cn, val, fac });
+            (g, 2u8, 1u8)
+        } else {
+            let (num, reg) = self.number();
+            let kind = *self.r.pick(&[K_7BIT, K_14BIT, K_14BIT, K_INC]);
+            let order = self.r.below(2) as u8;
+            let (g, n) = self.push_enc_pn(ch, num, reg, kind, order);
+            (g, n, 1 + self.r.below(n as u64 - 1) as u8)
+        };
+        for i in 0..split {
+            self.ev.push(Ev::Part { g, i, repr, x: [0; 3] });
+        }
+        // the cycle
+        let k = 1 + self.r.below(3) as usize;
+        for _ in 0..k {
+            let e = match self.r.below(8) {
+                0 | 1 => Ev::Reset,
+                2 => Ev::Feed { b: [0xB0 | d, self.r.below(32) as u8, self.r.u7()], repr },
+                3 => Ev::Feed { b: [0xB0 | d, *self.r.pick(&[6u8, 38, 98, 99, 100, 101, 96]), self.r.u7()], repr },
+                4 => Ev::Poll { ch: if self.r.chance(1, 2) { ch } else { d } },
+                5 => Ev::Adv { ns: *self.r.pick(&[1u128, self.cfg.timeout_ns.min(1 << 40), 1_000_000]) },
+                6 => Ev::Feed { b: [0xB0 | ch, 64 + self.r.below(32) as u8, self.r.u7()], repr },
+                _ => Ev::Feed { b: [0xC0 | ch, self.r.u7(), 0], repr },
+            };
+            self.ev.push(e);
+        }
+        let n = if self.p.long_pm > 2 && self.r.chance(1, 8) { 65535u16 } else { *self.r.pick(&[255u16, 255, 256, 254, 511]) };
+        self.fire(F_SOAK_LOOP, Some(ch));
+        self.ev.push(Ev::Repeat { k: k as u8, n });
+        // second half
+        for i in split..n_parts {
+            self.ev.push(Ev::Part { g, i, repr, x: [0; 3] });
+        }
+        self.ev.push(Ev::Adv { ns: self.cfg.timeout_ns });
+        self.ev.push(Ev::Poll { ch });
+        self.inflight = [false; 16];
+    }
+
     /// Soak loop: repeat the last few events many times (leaks and counters need many rounds of one
     /// short cycle, e.g. value byte - wait - poll).
     fn maybe_soak(&mut self) {
@@ -1092,6 +1157,10 @@ impl<'a> Gen<'a> {
             match action {
                 Action::TalkerSend(ti) => {
                     let ch = chans[ti];
+                    if self.cfg.rate[F_SOAK_LOOP] > 0 && self.soaks < 2 && self.r.chance(1, 40) {
+                        self.soaks += 1;
+                        self.emit_interrupted_pair(ch);
+                    }
                     if scripts[ti].is_empty() {
                         let mut q = std::mem::take(&mut scripts[ti]);
                         self.script(ch, &mut q);
@@ -1234,6 +1303,10 @@ impl<'a> Gen<'a> {
             let c = chans[ti];
             let k = self.r.below(total);
             if k < w_feed {
+                if self.cfg.rate[F_SOAK_LOOP] > 0 && self.soaks < 2 && self.r.chance(1, 40) {
+                    self.soaks += 1;
+                    self.emit_interrupted_pair(c);
+                }
                 if structured {
                     if scripts[ti].is_empty() {
                         let mut q = std::mem::take(&mut scripts[ti]);
